@@ -34,6 +34,7 @@ type vBPF struct {
 	sets   map[string]bool
 	polRC  uint32
 	jumped bool
+	subprogs int
 }
 
 const (
@@ -41,6 +42,8 @@ const (
 	vFDState  = 12
 	vFDJump   = 13
 	vFDPol    = 14
+	vPolIdx    = 7
+	vPolStride = 1000
 )
 
 func (m *vBPF) setIn(id uint64, leg string) bool {
@@ -242,7 +245,25 @@ func (m *vBPF) run(progs []asm.Insns) {
 						default:
 							verifFail("bpf/lookup-in-unknown-map")
 						}
-					case 12: // bpf_tail_call: leaves the policy program
+					case 12: // bpf_tail_call
+						if m.regs[2].kind == vKindMapFD && m.regs[2].v == vFDPol {
+							// policy jump map: continue in the sub-program at that index
+							idx := int(m.regs[3].v)
+							k := (idx - vPolIdx) / vPolStride
+							if idx < 0 || (idx-vPolIdx)%vPolStride != 0 || k < 1 || k >= len(progs) {
+								verifFail("bpf/tail-call-to-unknown-sub-program")
+							}
+							prog = progs[k]
+							pc = 0
+							for r := range m.regs {
+								m.regs[r] = vReg{}
+							}
+							m.regs[10] = vReg{vKindStack, 0}
+							m.regs[1] = vReg{vKindCtx, 0}
+							m.subprogs++
+							break
+						}
+						// allow/deny jump map: leaves the policy program
 						m.jumped = true
 						return
 					default:
@@ -321,7 +342,7 @@ type vbRule struct {
 
 var vbRanges = [][2]int32{{80, 89}, {85, 95}}
 var vbActions = []string{"allow", "deny", "next-tier", "log"}
-var vbNets = []string{"10.0.0.0/8", "10.1.0.0/16"}
+var vbNets = []string{"10.0.0.0/8", "172.16.0.0/12"} // disjoint: a CIDR list whose later entries matter
 
 func (r vbRule) proto() *proto.Rule {
 	pr := &proto.Rule{Action: r.action}
@@ -347,7 +368,7 @@ func (r vbRule) matches(m *vBPF, proto uint8, src uint32, dport uint16) bool {
 	if r.rng < len(vbRanges) {
 		net := vbInNet(src, 0x0a000000, 8)
 		if r.rng == 1 {
-			net = net || vbInNet(src, 0x0a010000, 16)
+			net = net || vbInNet(src, 0xac100000, 12)
 		}
 		ok = proto == 6 && int32(dport) >= vbRanges[r.rng][0] && int32(dport) <= vbRanges[r.rng][1] && net
 	}
@@ -422,11 +443,24 @@ func VerifHarness_C11_workload() {
 	}
 	rules.NoProfileMatchID = id
 
-	b := NewBuilder(vIDs{}, maps.FD(vFDIPSets), maps.FD(vFDState), maps.FD(vFDJump), maps.FD(vFDPol), WithAllowDenyJumps(1, 2))
+	opts := []Option{WithAllowDenyJumps(1, 2)}
+	maxJumps := verifParam("MAXJUMPS", 0)
+	if maxJumps > 0 {
+		opts = append(opts, WithPolicyMapIndexAndStride(vPolIdx, vPolStride))
+	}
+	b := NewBuilder(vIDs{}, maps.FD(vFDIPSets), maps.FD(vFDState), maps.FD(vFDJump), maps.FD(vFDPol), opts...)
+	if maxJumps > 0 {
+		// force the builder to split the program into tail-called sub-programs every few jumps, so
+		// that splits land between rules, inside CIDR lists and inside port lists
+		b.maxJumpsPerProgram = maxJumps
+	}
 	progs, err := b.Instructions(rules)
-	verifAssert("bpf/builds", err == nil && len(progs) == 1)
-	if err != nil || len(progs) != 1 {
+	verifAssert("bpf/builds", err == nil && len(progs) >= 1 && (maxJumps > 0 || len(progs) == 1))
+	if err != nil || len(progs) < 1 {
 		return
+	}
+	if len(progs) > 1 {
+		verifReach("bpf/split-into-sub-programs")
 	}
 
 	m := &vBPF{sets: map[string]bool{}}
